@@ -163,6 +163,38 @@ def r6_target_derivation(ctx):
            "the target is taken apart as an absolute URI only under starts_with(\"http://\") / starts_with(\"https://\")" if not bad else
            "the request target is searched/sliced for a URI scheme without having been tested with starts_with(\"http://\"|\"https://\") (line %s): an origin-form request whose path or query contains `://` "
            "(e.g. /login?next=http://elsewhere/cb) is routed to the embedded host instead of its Host header" % bad[0].line)
+    # on the absolute-form paths the origin-form target that is forwarded is what follows the authority (or `/`), never the
+    # whole request target: every way from a scheme edge to the successful return re-assigns the path variable
+    path_local = None
+    okret = None
+    for kind, bi, si, rv in body.defs().get(0, []):
+        if kind == "assign" and rv["r"] == "aggregate" and rv["kind"].get("variant") == "Ok" and rv["ops"] and cfg.reach([e[1] for e in sw_true]) & {bi}:
+            tup = rv["ops"][0]
+            if tup["o"] in ("move", "copy"):
+                for d in body.defs().get(tup["place"]["local"], []):
+                    if d[0] == "assign" and d[3]["r"] == "aggregate" and len(d[3]["ops"]) >= 3 and d[3]["ops"][2]["o"] in ("move", "copy"):
+                        path_local = d[3]["ops"][2]["place"]["local"]
+                        okret = d[1]
+                        for _ in range(4):      # through the temporaries that carry the variable into the tuple
+                            ds_ = [x for x in body.defs().get(path_local, []) if x[0] in ("assign", "call")]
+                            if len(ds_) == 1 and ds_[0][0] == "assign" and ds_[0][3]["r"] == "use" and ds_[0][3]["op"].get("o") in ("move", "copy") and not ds_[0][3]["op"]["place"]["proj"]:
+                                path_local = ds_[0][3]["op"]["place"]["local"]
+                            else:
+                                break
+    if path_local is not None:
+        pdefs = [d[1] for d in body.defs().get(path_local, []) if d[0] in ("assign", "call")]
+        in_abs = [b_ for b_ in pdefs if cfg.edges_dominate(sw_true, b_)]
+        # the scheme tests that *enter* the absolute-form handling (a later `starts_with("https://")` that only picks the port comes
+        # after the path has been assigned)
+        before = cfg.reach([0], avoid_blocks=in_abs)
+        entry = [e for e in sw_true if e[0] in before]
+        okp, pth = cfg.must_pass([e[1] for e in entry], [okret], via_blocks=in_abs) if in_abs and entry else (False, None)
+        ctx.ob("R17.6", "determine_target:absolute-form-path-is-what-follows-the-authority", okp, "",
+               "on every absolute-form path the forwarded target is re-assigned (the rest after the authority, or `/`)" if okp else
+               "an absolute-form request can keep the whole request target as its path (no assignment of the path on some way from the scheme test to the return): `GET http://host HTTP/1.1` is forwarded as "
+               "`GET /http://host HTTP/1.1`", path=None if okp or not pth else render_path(body, pth))
+    else:
+        ctx.missing("R17.6", "the path component of determine_target's Ok tuple")
     # the Host header supplies the destination only for a target that is not in absolute form (RFC 7230 5.4: the request
     # target's authority wins)
     sw_false = {}
@@ -243,6 +275,30 @@ def r7_parsing_totality(ctx):
         ok = never_err(shp)
         ctx.ob("R17.7", "split_host_port:falls-back-to-the-default-port", ok, "", "split_host_port always returns Ok: a suffix that is not a port (the inside of a bracketed IPv6 literal) means 'no port given'" if ok else
                "split_host_port can fail: an authority whose last `:` is not followed by a port — a bracketed IPv6 literal without a port such as [::1] or http://[2001:db8::1]/ — is refused instead of getting the default port")
+    if shp is not None:
+        # `[v6]:port`: the closing bracket sits *before* the port colon, so brackets are stripped from the host part after the port
+        # has been cut off — stripping at the ends of the whole authority first leaves `2001:db8::1]`
+        o_ = ctx.origins(shp)
+        hosts = []
+        for kind, bi, si, rv in shp.defs().get(0, []):
+            if kind == "assign" and rv["r"] == "aggregate" and rv["kind"].get("variant") == "Ok" and rv["ops"]:
+                t = o_.of_operand(rv["ops"][0])
+                if isinstance(t, tuple) and t and t[0] == "agg" and len(t[3]) == 2 and any(is_call_term(s_, "::parse") for s_ in subterms(t[3][1])):
+                    hosts.append(t[3][0])
+        if not hosts:
+            ctx.missing("R17.7", "Ok((host, parsed port)) return of split_host_port")
+        for h in hosts:
+            def strips_closing_bracket_outside_the_cut(t):
+                for s_ in subterms(t):
+                    if isinstance(s_, tuple) and s_ and s_[0] == "call" and s_[1].split("::")[-1] in ("trim_matches", "trim_end_matches", "strip_suffix", "trim_end_matches") and len(s_[3]) > 1 \
+                            and (const_value(s_[3][1]) == 93 or "]" in fmt(s_[3][1])):
+                        if any(is_call_term(x, "::index") or is_call_term(x, "::split_at") or is_call_term(x, "::rsplit_once") or is_call_term(x, "::split_once") for x in subterms(s_[3][0])):
+                            return True
+                return False
+            ok = strips_closing_bracket_outside_the_cut(h)
+            ctx.ob("R17.7", "split_host_port:brackets-stripped-after-the-port-is-cut-off", ok, "", "the host of `host:port` is the part before the last colon with its brackets stripped" if ok else
+                   "the host returned with a parsed port is `%s`: the closing bracket is not stripped from the part before the port colon (stripping at the ends of the whole authority cannot reach it), so "
+                   "`[2001:db8::1]:8443` yields the host `2001:db8::1]`, which is sent as a domain name and fails to resolve" % fmt(h)[:90])
     pr = ctx.body("R17.7", HP + "parse_http_request")
     if pr is not None:
         bad = [c for c in pr.calls() if (c.norm or "").split("::")[-1] in ("take", "skip", "step_by", "take_while", "skip_while", "nth", "truncate", "dedup", "sort", "rev", "last", "pop", "swap_remove", "remove", "drain")
